@@ -76,9 +76,20 @@ class EnipWorld(object):
                 self.sched.preempt_gap = sch.choice([20, 60, 150, 400], 'pgapfocus')
             elif focus == 'one':
                 cand = [f for f in fns if f.__name__ in core or f.__name__ in ('process', 'setup', 'enip_srv_tcp', 'forward_open', 'forward_close')]
-                fns = [cand[sch.draw(len(cand) + 1, 'focusfn') % len(cand)]] if not params.get('focus_fn') else \
+                # the functions that touch tag storage or the shared deferred-closure list are where a lost
+                # atomicity shows; they are chosen more often
+                wt = {'__setitem__': 5, '__getitem__': 4, 'produce': 2, 'reply_elements': 2, 'post_process_closure': 2, 'closure': 2}
+                wt.update(params.get('focus_weights') or {})
+                weighted = []
+                for f in cand:
+                    weighted += [f] * wt.get(f.__name__, 1)
+                fns = [weighted[sch.draw(len(weighted), 'focusfn')]] if not params.get('focus_fn') else \
                     [f for f in fns if f.__qualname__ == params['focus_fn']]
                 self.sched.preempt_gap = sch.choice([3, 8, 25, 80], 'pgapone')
+                # entering the window is the point of this mode: at least one pre-emption, and the
+                # pre-empted thread is held long enough for another session's whole round trip
+                self.sched.preempt_left = max(self.sched.preempt_left, 1 + sch.draw(2, 'pbone'))
+                self.sched.hold_choices = (15, 60, 200, 400)
             self.focus = focus if focus != 'one' else 'one:' + fns[0].__qualname__
             for fn in fns:
                 self.sched.add_traced(fn)
@@ -114,7 +125,7 @@ class EnipWorld(object):
             budget = g.weighted([(3, 488), (2, g.between(3, 64, 'bsmall')), (1, g.between(65, 600, 'bmid'))], 'budget')
         self.budget = budget
         model = Model(budget=budget)
-        ntags = ntags or g.between(1, 6, 'ntags')
+        ntags = ntags or g.weighted([(6, g.between(1, 6, 'ntags')), (1, g.between(10, 14, 'manytags'))], 'ntagsk')
         types = types or ALL_TYPES
         names = list(NAMES)
         specs = []
@@ -360,7 +371,14 @@ class RefSession(object):
 
     def connect(self):
         s = self.w.sched
-        s.block(Waiter(cond=lambda: PORT in self.w.net.listeners, why='await-listen'))
+        w = self.w
+        s.block(Waiter(cond=lambda: PORT in w.net.listeners or (w.server_thread is not None and w.server_thread._sim_state == 'done'),
+                       why='await-listen'))
+        if PORT not in w.net.listeners:
+            w.violation('server-start-failed', 'the simulator main() ended before listening: %r (argv %r)' % (
+                w.server_result, [a for a in w.argv if not a[:1].isalpha() or '=' not in a][:8]),
+                argv=' '.join(a for a in w.argv[4:8] if '=' not in a))
+            raise Violation()
         self.sock.connect(('127.0.0.1', PORT))
         self.index = self.sock.conn_index
 
@@ -660,6 +678,13 @@ def gen_fit(g, src, tname, unique, fit):
     the tag's own type tname."""
     from ref.model import representable
     v = convert(src, gen_value(g, src, unique))
+    if not fit and src != tname and src in rc.INT_RANGE and tname in rc.INT_RANGE and g.chance(1, 3, 'edgeval'):
+        # the edges of the *tag's* range as seen from the declared type: hi, hi+1, lo, lo-1
+        lo, hi = rc.INT_RANGE[tname]
+        slo, shi = rc.INT_RANGE[src]
+        cands = [x for x in (hi, hi + 1, lo, lo - 1, hi - 1, hi + 2) if slo <= x <= shi]
+        if cands:
+            return g.choice(cands, 'edgepick')
     if fit and src != tname and src not in STRINGS and tname not in STRINGS and not representable(tname, v):
         if src in rc.INT_RANGE and tname in rc.INT_RANGE:
             lo = max(rc.INT_RANGE[src][0], rc.INT_RANGE[tname][0])
